@@ -124,7 +124,7 @@ fn cases(thorough: bool) -> Vec<Case> {
             let p = problem(pid, args);
             let jacs: Vec<&'static str> = if is_implicit(m) { if *pid == "decay" || *pid == "osc" || *pid == "lin3" { vec!["none", "callable", "constant"] } else { vec!["none", "callable"] } } else { vec!["none"] };
             for jac in jacs {
-                for opt in 0..9 {
+                for opt in 0..10 {
                     if jac != "none" && ![0, 1, 3].contains(&opt) {
                         continue;
                     }
@@ -161,6 +161,11 @@ fn cases(thorough: bool) -> Vec<Case> {
                             c.xend = 0.0;
                             c.t_eval = Some((0..=4).map(|i| span - span * i as f64 / 4.0).collect());
                         }
+                        9 => {
+                            // a terminal, direction-filtered event first, then event functions that
+                            // carry no attributes at all (their configuration must be the default)
+                            c.events = vec![EventSpec::new(EvKind::T(0.8 * span)).dir(Direction::Positive).term(1), EventSpec::new(EvKind::Y(0, 0.8 * p.y0[0])), EventSpec::new(EvKind::T(0.3 * span))];
+                        }
                         _ => {
                             if p.n < 2 {
                                 continue;
@@ -172,7 +177,12 @@ fn cases(thorough: bool) -> Vec<Case> {
                     if m == Method::RK4 && opt == 6 {
                         c.max_step = None;
                     }
-                    let events = c.events.iter().map(ev_json).collect();
+                    let mut events: Vec<Value> = c.events.iter().map(ev_json).collect();
+                    if opt == 9 {
+                        for e in events.iter_mut().skip(1) {
+                            e["plain"] = json!(true);
+                        }
+                    }
                     v.push(Case { id: format!("case:{}:{}:{}:{}", mname(m), pid, jac, opt), prob: pid.to_string(), args: args.clone(), cfg: c, jac, events, sol_ts, pattern: None });
                 }
             }
